@@ -75,7 +75,17 @@ type subSpec struct {
 	updatesOnly  bool
 	backpressure bool
 	masked       bool
+	include      bool   // Pull only: a filtered view (items whose d/10 is odd); the fold must then be the filtered store
 	when         string // before | inject | after
+}
+
+// includeOdd is the predicate of filtered views: it reads field d, which the read mask of masked subscriptions leaves out.
+func includeOdd(id string, m proto.Message) bool {
+	if id == sentinelID {
+		return true
+	}
+	fmv, ok := m.(*testproto.ForeignMessage)
+	return ok && fmv != nil && (fmv.GetD()/10)%2 != 0
 }
 
 func (s subSpec) String() string {
@@ -83,7 +93,7 @@ func (s subSpec) String() string {
 	if s.pullID != "" {
 		k = "PullID(" + s.pullID + ")"
 	}
-	return fmt.Sprintf("%s{updatesOnly=%v backpressure=%v masked=%v opened=%s}", k, s.updatesOnly, s.backpressure, s.masked, s.when)
+	return fmt.Sprintf("%s{updatesOnly=%v backpressure=%v masked=%v filtered=%v opened=%s}", k, s.updatesOnly, s.backpressure, s.masked, s.include, s.when)
 }
 
 type inj struct {
@@ -242,6 +252,9 @@ func (w *world) open(i int) {
 	if m := mask(sr.spec); m != nil {
 		opts = append(opts, resource.WithReadMask(m))
 	}
+	if sr.spec.include && sr.spec.pullID == "" && !w.isValue {
+		opts = append(opts, resource.WithInclude(resource.FilterFunc(includeOdd)))
+	}
 	consumeV := func(ch <-chan *resource.ValueChange, key string, stopAtSentinel bool) {
 		defer close(sr.done)
 		for {
@@ -390,6 +403,8 @@ func genScenario(t *rapid.T, parallel bool) scenario {
 		}
 		if !s.isValue && rapid.IntRange(0, 4).Draw(t, "pullID") == 0 {
 			sp.pullID = rapid.SampledFrom(ids).Draw(t, "pullIDid")
+		} else if !s.isValue && rapid.IntRange(0, 4).Draw(t, "filtered") == 2 {
+			sp.include = true
 		}
 		if parallel && sp.when == "inject" {
 			sp.when = "during"
@@ -788,6 +803,9 @@ func runScenario(t *rapid.T, s scenario) {
 		}
 		for _, id := range ids {
 			want, exists := store[id]
+			if sr.spec.include && exists && !includeOdd(id, want) {
+				exists = false // not part of this filtered view
+			}
 			got, inView := view[id]
 			if sr.spec.updatesOnly && !touched[id] {
 				// the view knows nothing about this id: fine unless it was written after the subscription was opened
